@@ -91,6 +91,16 @@ class QGen:
             nxt = _selected_children(cursor, sels)
             if nxt:
                 cursor = r.choice(nxt)
+        if r.random() < 0.12:
+            # a selector that does not fit the kind of value reached: index/slice into a string or an object,
+            # name on an array or a string (RFC 9535: selects nothing)
+            if isinstance(cursor, str) and cursor:
+                segs.append(["child", [r.choice([["index", r.randrange(-len(cursor), len(cursor))], ["slice", None, None, None],
+                                                 ["wild"], ["name", "0"]])]])
+            elif isinstance(cursor, dict) and cursor:
+                segs.append(["child", [r.choice([["index", 0], ["index", -1], ["slice", 0, None, None]])]])
+            elif isinstance(cursor, list) and cursor:
+                segs.append(["child", [r.choice([["name", "0"], ["name", "length"], ["name", str(len(cursor) - 1)]])]])
         return ["q", root, segs]
 
     def filter_for(self, v, fdepth):
